@@ -586,6 +586,9 @@ class EdtInterp(ResultInterp):
             if len(a) >= 3 and isinstance(a[2], DArr):
                 a[2].expr = "ft"
             return None
+        if name.split(".")[-1] == "distance_transform_edt" and name.startswith("scipy") and kwargs.get("return_indices") is True and kwargs.get("return_distances") is False and not (set(kwargs) - {"sampling", "return_indices", "return_distances"}) and len(a) == 1:
+            # the public entry point asked for the feature transform only: per voxel the index of the nearest zero
+            return DArr("i32", "ft")
         if name == "numpy.indices":
             d = kwargs.get("dtype")
             dt = d.name[8:] if isinstance(d, Sym) and d.name.startswith("dtypeof:") else (_dt(d) or "i64")
@@ -684,7 +687,7 @@ def check_metric_consistency(ctx: Ctx):
         ctx.ok("R07.6", edt, edt.node, f"{edt.qual}:no-sampling", "the distance transform has no sampling parameter", None, nontrivial=False)
         return
     # does the reconstruction use the sampling?  (a Name load of the parameter outside the feature-transform call)
-    ft_calls = [c for c in prog.calls_in(edt) if (dotted(c.func) or "").split(".")[-1] == "euclidean_feature_transform"]
+    ft_calls = [c for c in prog.calls_in(edt) if (dotted(c.func) or "").split(".")[-1] in ("euclidean_feature_transform", "distance_transform_edt")]
     inside = {id(n) for c in ft_calls for n in ast.walk(c)}
     scaled = [n for n in walk_no_nested(edt.node) if isinstance(n, ast.Name) and n.id == sp and isinstance(n.ctx, ast.Load) and id(n) not in inside]
     passes = [c for c in ft_calls if any(isinstance(n, ast.Name) and n.id == sp for n in ast.walk(c))]
